@@ -17,6 +17,9 @@ type Key struct {
 	API    string      `json:"api"` // compile | parse | scan | split
 	Source string      `json:"source"`
 	Params [][2]string `json:"params,omitempty"` // sorted by name; compile only
+	// Extra holds values for option fields other than Parameters that the tree under test has
+	// (field name, JSON value), sorted by name; see options.go. Empty on the pinned tree.
+	Extra [][2]string `json:"extra,omitempty"`
 	// Ref is the result of a lone first call in a fresh, uninstrumented process.
 	Ref      string `json:"ref,omitempty"`
 	RefOK    bool   `json:"ref_ok"`
@@ -26,6 +29,9 @@ type Key struct {
 
 // Sig is the identity of the key.
 func (k *Key) Sig() string {
+	if len(k.Extra) > 0 {
+		return fmt.Sprintf("%s|%q|%q|%q", k.API, k.Source, k.Params, k.Extra)
+	}
 	return fmt.Sprintf("%s|%q|%q", k.API, k.Source, k.Params)
 }
 
@@ -42,6 +48,9 @@ func (k *Key) ParamMap() map[string]string {
 func (k *Key) OptForms() []string {
 	if k.API != "compile" {
 		return []string{"-"}
+	}
+	if len(k.Extra) > 0 && len(k.Params) == 0 {
+		return []string{"zero", "nilmap-explicit", "emptymap", "shared"}
 	}
 	if len(k.Params) == 0 {
 		return []string{"pkgfunc", "nilopts", "zero", "nilmap-explicit", "emptymap", "shared"}
@@ -160,8 +169,9 @@ func GenPoolWide(seed uint64, nGenerated int) []*Key { return genPool(seed, nGen
 func genPool(seed uint64, nGenerated int, wide bool) []*Key {
 	seen := map[string]bool{}
 	var keys []*Key
+	var extra [][2]string
 	add := func(api, src string, params [][2]string, tags ...string) {
-		k := &Key{API: api, Source: src, Params: params, Tags: tags}
+		k := &Key{API: api, Source: src, Params: params, Tags: tags, Extra: extra}
 		if seen[k.Sig()] {
 			return
 		}
@@ -169,6 +179,8 @@ func genPool(seed uint64, nGenerated int, wide bool) []*Key {
 		k.ID = len(keys)
 		keys = append(keys, k)
 	}
+	fillable, _ := OptionFields()
+	haveExtra := len(fillable) > 0
 	var sources []string
 	sources = append(sources, curated...)
 	r := prng.Sub(seed, "c14-pool", 0)
@@ -214,6 +226,19 @@ func genPool(seed uint64, nGenerated int, wide bool) []*Key {
 			cp := append([][2]string(nil), ps...)
 			sort.Slice(cp, func(a, b int) bool { return cp[a][0] < cp[b][0] })
 			add("compile", src, cp)
+		}
+		// the same source with the tree's further option fields set (none on the pinned tree)
+		if xr := prng.Sub(seed, "c14-pool-extra", uint64(i)); haveExtra && (!wide || xr.Chance(1, 3)) {
+			for j := 0; j < 1+xr.Intn(2); j++ {
+				extra = GenExtra(xr)
+				var cp [][2]string
+				if xr.Chance(1, 3) {
+					cp = append(cp, paramSets[xr.Intn(len(paramSets))]...)
+					sort.Slice(cp, func(a, b int) bool { return cp[a][0] < cp[b][0] })
+				}
+				add("compile", src, cp)
+				extra = nil
+			}
 		}
 		apis := 4
 		if wide {
